@@ -464,9 +464,6 @@ impl V {
                     last_match_narrows = refutable && prov && !after_match;
                     if prov && !after_match {
                         self.prov_matches.set(self.prov_matches.get() + 1);
-                        if self.in_field.get() > 0 {
-                            return Err("a match on a variable / parameter inside a tuple field (open finding: the field's provenance is the matched value's)".into());
-                        }
                     }
                     after_match = true
                 }
@@ -492,33 +489,68 @@ impl V {
             Term::Lit(Lit::Bin(_)) => Ok(Ty::Bin),
             Term::Str(_) => Ok(Ty::str_()),
             Term::Tuple(name, fields) => {
-                let mut ftys = vec![];
+                let mut ftys: Vec<(Option<String>, Ty)> = vec![];
                 let fs = self.flow.get();
+                let mut inherited: Option<Option<String>> = None;
+                let has_spread = fields.iter().any(|f| matches!(f, Field::Spread(_)));
                 for f in fields {
-                    let Field::Val(l, c) = f else { return Err("spread".into()) };
-                    if c.pat.is_some() {
-                        return Err("binding chain inside a tuple field".into());
-                    }
-                    env.kill_pending();
-                    self.in_field.set(self.in_field.get() + 1);
-                    let r = self.terms(env, tin, &c.terms, false, cx, fs);
-                    self.in_field.set(self.in_field.get() - 1);
-                    let (ty, _) = r?;
-                    env.kill_pending();
-                    if ty.is_never() {
-                        return Err("never-typed field".into());
-                    }
-                    if let Some(l) = l {
-                        if ftys.iter().any(|(k, _): &(Option<String>, Ty)| k.as_ref() == Some(l)) {
-                            return Err("duplicate field label".into());
+                    match f {
+                        Field::Spread(src) => {
+                            let sty = match src {
+                                None => tin.clone(),
+                                Some(x) => env.read(x)?.ty.clone(),
+                            };
+                            let Ty::Tup(n, sfs) = sty else { return Err("spread of a value whose type is not exactly one tuple type".into()) };
+                            if inherited.is_none() {
+                                inherited = Some(n);
+                            }
+                            for (l, t) in sfs {
+                                set_or_append(&mut ftys, l, t);
+                            }
+                        }
+                        Field::Val(l, c) => {
+                            if c.pat.is_some() {
+                                return Err("binding chain inside a tuple field".into());
+                            }
+                            env.kill_pending();
+                            if has_spread {
+                                // open finding: the fields of a tuple WITH a spread do not receive the
+                                // flowing value (only `~` reaches it)
+                                match c.terms.first() {
+                                    Some(Term::Access(Src::Ripple, _)) => {}
+                                    Some(t) if self.uses_flow(env, t, cx) => {
+                                        return Err("field of a spread tuple consumes the flow other than through `~` (open finding)".into())
+                                    }
+                                    _ => {}
+                                }
+                            }
+                            self.in_field.set(self.in_field.get() + 1);
+                            let r = self.terms(env, tin, &c.terms, false, cx, fs);
+                            self.in_field.set(self.in_field.get() - 1);
+                            let (ty, _) = r?;
+                            env.kill_pending();
+                            if ty.is_never() {
+                                return Err("never-typed field".into());
+                            }
+                            if let Some(l) = l {
+                                if !has_spread && ftys.iter().any(|(k, _)| k.as_ref() == Some(l)) {
+                                    return Err("duplicate field label".into());
+                                }
+                                if fields.iter().filter(|g| matches!(g, Field::Val(Some(k), _) if k == l)).count() > 1 {
+                                    return Err("duplicate field label".into());
+                                }
+                            }
+                            set_or_append(&mut ftys, l.clone(), ty);
                         }
                     }
-                    ftys.push((l.clone(), ty));
                 }
                 let n = match name {
                     TupName::Anon => None,
                     TupName::Named(n) => Some(n.clone()),
-                    TupName::Inherit => return Err("inherit".into()),
+                    TupName::Inherit => match (&inherited, fields.first()) {
+                        (Some(n), Some(Field::Spread(_))) => n.clone(),
+                        _ => return Err("inherited tuple name without a leading spread".into()),
+                    },
                 };
                 Ok(Ty::Tup(n, ftys))
             }
@@ -739,9 +771,6 @@ impl V {
             let nl = self.non_last_cond.replace(!is_last);
             self.prov_matches.set(0);
             let r = self.seq(&mut benv, tin, &b.cond, tail && b.cons.is_none() && is_last, c);
-            if r.is_ok() && !is_last && self.prov_matches.get() >= 2 {
-                return Err("two matches on variables / the parameter in the condition of a non-last branch (open finding: a statically failing second match leaves complement narrowing active)".into());
-            }
             self.in_cond.set(ic);
             self.multi_match_cond.set(mm);
             self.non_last_cond.set(nl);
